@@ -196,10 +196,11 @@ fn parse_side(ctx: &mut Ctx, arena: &Arena) {
 
 /// Long declared contents: every length 0..=80 and the counter boundaries, the first NUL at the start / middle /
 /// last byte / absent, plain ASCII or with a multi-byte character or an invalid byte next to the terminator.
-fn parse_long(ctx: &mut Ctx, arena: &Arena) {
-    ctx.bound("parse_long", "declared contents of every length 0..=80 and 255..257, 1023..1025, 4095..4097: first NUL at position {none, 0, len/2, len-2, len-1} x {ASCII, two-byte character right before the NUL, invalid byte before the NUL, invalid byte after the NUL, trailing space / newline before the NUL}; tag level, zero and marker padding");
+fn parse_long(ctx: &mut Ctx, small: &Arena, large: &Arena) {
+    ctx.bound("parse_long", "declared contents of every length 0..=80 and 255..257, 1023..1025, 4095..4097, 65535..65537, 2^20 + 1: first NUL at position {none, 0, len/2, len-2, len-1} x {ASCII, two-byte character right before the NUL, invalid byte before the NUL, invalid byte after the NUL, trailing space / newline before the NUL}; tag level, zero and marker padding");
     for kind in KINDS.iter() {
-        for len in (0..=80usize).chain([255, 256, 257, 1023, 1024, 1025, 4095, 4096, 4097]) {
+        for len in (0..=80usize).chain([255, 256, 257, 1023, 1024, 1025, 4095, 4096, 4097, 65535, 65536, 65537, (1 << 20) + 1]) {
+            let arena = if len > 5000 { large } else { small };
             let mut nulpos: Vec<Option<usize>> = vec![None];
             for p in [0usize, len / 2, len.saturating_sub(2), len.saturating_sub(1)] {
                 if p < len && !nulpos.contains(&Some(p)) {
@@ -350,7 +351,8 @@ fn build_side(ctx: &mut Ctx) {
 fn run(ctx: &mut Ctx) {
     let arena = Arena::new(2);
     parse_side(ctx, &arena);
-    parse_long(ctx, &arena);
+    let long_arena = Arena::new(300);
+    parse_long(ctx, &arena, &long_arena);
     if !ctx.uniform() {
         build_side(ctx);
     }
